@@ -1,6 +1,6 @@
 """Per-property case generators. Each returns {'cases': [...], 'rule': str, 'exhaustive': bool, 'dist': {...}};
 a case is {'id', 'lines', 'key', 'nontrivial'}. Register numbers count the 'r' lines of the case."""
-import collections, itertools
+import collections, itertools, random
 from . import gen
 from .gen import pe, hexname, val_tokens, set_tokens
 
@@ -1265,3 +1265,31 @@ def gen_C19(tier, rng):
 
 
 GENERATORS.update({"C19": gen_C19})
+
+
+# ------------------------------------------------------------------ awkward variable names
+PLAIN_UNIVERSE = sorted(gen.NAMES + ["p", "q", "r", "z", "zz"] + ["x%d" % i for i in range(1, 13)], key=lambda s: s.encode())
+AWKWARD = [" lead", "-k", "0", "10", "2", "A", "B10", "B2", "False", "T", "Z", "_", "_9", "a", "a b", "a.b", "aa", "ab", "b", "false", "ff",
+           "not", "nota", "true", "v", "v1", "x_1", "x_10", "x_2", "z", "zz", "{", "~", "é", "ñandú", "Ω", "ж", "漢", "漢字", "😀", "😀a"]
+assert AWKWARD == sorted(AWKWARD, key=lambda s: s.encode()) and len(AWKWARD) >= len(PLAIN_UNIVERSE)
+RENAMED_PROPS = {"C01", "C02", "C03", "C04", "C05", "C06", "C07", "C08", "C09", "C10", "C11", "C15", "C20"}
+
+
+def renamed_cases(prop, tier, seed, every=3):
+    """the generator of a semantic property run again (same random stream, so the same cases) under a random
+    ORDER-PRESERVING renaming of the plain names into awkward ones; every third case is kept. Order-preserving
+    (Rust String order = UTF-8 byte order), so that alignments, foreign-variable positions etc. stay what the generator meant."""
+    from . import common
+    r = random.Random(seed * 7919 + 13)
+    chosen = sorted(r.sample(range(len(AWKWARD)), len(PLAIN_UNIVERSE)))
+    common.RENAME = {plain: AWKWARD[i] for plain, i in zip(PLAIN_UNIVERSE, chosen)}
+    try:
+        again = GENERATORS[prop](tier, random.Random(seed))
+    finally:
+        common.RENAME = {}
+    out = []
+    for c in again["cases"][r.randrange(every)::every]:
+        c = dict(c); c["id"] = c["id"] + "n"; c["key"] = "renamed:" + str(c.get("key"))
+        c["lines"] = list(c["lines"])
+        out.append(c)
+    return out
